@@ -39,7 +39,7 @@ PROPS = {
     "C01": prop(["res", "snap", "query", "cursor"],
                 runs(["generic", "noobs"], 250, 120), runs(["generic", "noobs", "relations", "batch"], 2500, 200)),
     "C02": prop(["res", "handles", "alive", "stats"],
-                runs(["pool", "generic"], 250, 120), runs(["pool", "generic", "batch"], 2500, 200)),
+                runs(["pool", "generic", "dump"], 200, 120), runs(["pool", "generic", "batch", "dump"], 2500, 200)),
     "C03": prop(["res", "query", "cursor", "snap"],
                 runs(["queries", "relations"], 250, 120), runs(["queries", "relations", "generic"], 2500, 200)),
     "C04": prop(["res", "snap", "query"],
@@ -330,16 +330,34 @@ def extra_c16(pid, tier, seed, workdir, driver, lib):
         for offa, lp, offb, lq, ls, prefix, prelude, suffix in index:
             info["reset_vs_new_world_histories"] += 1
             info["reset_vs_new_world_ops"] += ls
+            # a batch operation that panics does so at the first offending table, and tables are
+            # visited in creation order, which legitimately differs between the two worlds ("up to
+            # iteration order"): both must panic, the class and everything later are not compared
+            cutoff = ls
+            for k in range(ls):
+                if suffix[k].split()[0] in ("xchgb", "setrelb", "delb", "newb", "new0b"):
+                    ra = pa.get(offa + lp + k + 1, ("",))[0]
+                    rb = pb.get(offb + lq + k + 1, ("",))[0]
+                    if ra.startswith("panic") or rb.startswith("panic"):
+                        cutoff = k
+                        if ra.startswith("panic") != rb.startswith("panic"):
+                            cutoff = k + 1   # one panics, the other does not: compared (and different)
+                        break
+
             def proj(blocks, off):
                 out = []
-                for k in range(ls):
+                for k in range(cutoff):
                     b = blocks.get(off + k + 1)
                     if b is None:
                         out.append("#%d <missing>" % (k + 1))
                         continue
                     res, logs, snap = b
                     opname = suffix[k].split()[0]
-                    out.append("#%d %s" % (k + 1, lib.canon_result(res, opname, _C16_FACETS)))
+                    if opname in ("qnext", "qget", "qgetc", "qat"):
+                        # what a cursor points at depends on the iteration order
+                        out.append("#%d cursor-op" % (k + 1))
+                    else:
+                        out.append("#%d %s" % (k + 1, lib.canon_result(res, opname, _C16_FACETS)))
                     out.extend(lib.group_logs(logs, _C16_FACETS))
                     if snap is not None:
                         out.append("  S " + snap)
